@@ -98,10 +98,18 @@ func (d *DcDecl) QName() string {
 }
 
 type DcProgram struct {
+	MainPath string // import path of package p ("" = example.com/m/p): its directory name need not be "p"
 	Decls  []*DcDecl
 	PkgTag map[string]bool // package -> has "+k8s:deepcopy-gen=package"
 	HasDep bool
 	byName map[string]*DcDecl
+}
+
+func (p *DcProgram) Main() string {
+	if p.MainPath == "" {
+		return "example.com/m/p"
+	}
+	return p.MainPath
 }
 
 func (p *DcProgram) decl(q string) *DcDecl {
@@ -176,6 +184,7 @@ type dcGen struct {
 	n      int
 	feats  map[string]bool
 	arrays bool // allow arrays of references (known finding F18 / fixed)
+	plain  bool // only builtins and named structs by value: a universe with (almost) no anonymous types
 }
 
 var dcBuiltins = []string{"int", "string", "bool", "float64", "byte", "int64", "uint32"}
@@ -208,6 +217,14 @@ func (g *dcGen) te(cur, pos string, depth int) *DcTE {
 	isAliasB := func(d *DcDecl) bool { return d.Kind == "alias" && d.Under.K == "builtin" && d.Custom == "" }
 	isAliasRef := func(d *DcDecl) bool {
 		return d.Kind == "alias" && (d.Under.K == "map" || d.Under.K == "slice" || d.Under.K == "ptr") && d.Custom == "" && d.Tag != "false"
+	}
+	if g.plain {
+		if r.Chance(1, 3) {
+			if t := g.pickNamed(cur, isStruct); t != nil {
+				return t
+			}
+		}
+		return g.builtin()
 	}
 	for try := 0; try < 20; try++ {
 		k := r.Intn(14)
@@ -336,6 +353,12 @@ func (g *dcGen) pkg(cur string, ndecl int) {
 			if r.Chance(1, 8) {
 				d.Fields = append(d.Fields, DcField{Name: "hidden", T: g.builtin()})
 			}
+			if g.arrays && !g.plain && r.Chance(1, 6) {
+				// an array whose elements hold references: the struct is not assignable although every member is a "value"
+				el := &DcTE{K: r.Pick([]string{"ptr", "slice"}), Elem: g.builtin()}
+				d.Fields = append(d.Fields, DcField{Name: "Refs", T: &DcTE{K: "array", Len: 1 + r.Intn(2), Elem: el}})
+				g.feats["array-of-references"] = true
+			}
 			g.add(d)
 		case k == 6:
 			g.add(&DcDecl{Pkg: cur, Name: g.name("B"), Kind: "alias", Under: &DcTE{K: "builtin", Name: r.Pick(dcBuiltins)}})
@@ -379,13 +402,31 @@ func (g *dcGen) pkg(cur string, ndecl int) {
 
 func GenDcProgram(r *RNG, arrays bool) (*DcProgram, []string) {
 	g := &dcGen{r: r, prog: &DcProgram{PkgTag: map[string]bool{}}, feats: map[string]bool{}, arrays: arrays}
-	if r.Chance(1, 3) {
+	if r.Chance(1, 6) {
+		// many plain types in the first package, few in the second, hardly any anonymous type in the universe
+		g.plain = true
+		g.feats["plain-universe"] = true
+	}
+	if g.plain || r.Chance(1, 3) {
 		g.prog.HasDep = true
 		g.prog.PkgTag["dep"] = true
-		g.pkg("dep", 1+r.Intn(3))
+		if g.plain {
+			g.pkg("dep", 8+r.Intn(5))
+		} else {
+			g.pkg("dep", 1+r.Intn(6))
+		}
+		if r.Bool() {
+			// the package processed first (by import path) has the names that sort last (by directory name)
+			g.prog.MainPath = "example.com/m/z/app"
+			g.feats["path-order-differs-from-name-order"] = true
+		}
 	}
 	g.prog.PkgTag["p"] = r.Chance(3, 4)
-	g.pkg("p", 2+r.Intn(6))
+	if g.plain {
+		g.pkg("p", 2+r.Intn(2))
+	} else {
+		g.pkg("p", 2+r.Intn(6))
+	}
 	// tags
 	if g.prog.PkgTag["p"] {
 		g.feats["package-tag"] = true
@@ -469,11 +510,15 @@ func GenDcProgram(r *RNG, arrays bool) (*DcProgram, []string) {
 func (p *DcProgram) Source(pkg string) map[string]string {
 	files := map[string]string{}
 	var b strings.Builder
-	fmt.Fprintf(&b, "package %s\n\n", pkg)
+	clause := pkg
+	if pkg == "p" {
+		clause = p.Main()[strings.LastIndex(p.Main(), "/")+1:] // deepcopy-gen names the package after its directory
+	}
+	fmt.Fprintf(&b, "package %s\n\n", clause)
 	if pkg == "p" && p.HasDep {
 		uses := false
 		for _, d := range p.Decls {
-			if d.Pkg == "p" && strings.Contains(declSource(d, "p"), "dep.") {
+			if d.Pkg == "p" && strings.Contains(declSource(d, "p", p.Main()), "dep.") {
 				uses = true
 			}
 		}
@@ -488,7 +533,7 @@ func (p *DcProgram) Source(pkg string) map[string]string {
 	}
 	for _, d := range p.Decls {
 		if d.Pkg == pkg {
-			b.WriteString(declSource(d, pkg))
+			b.WriteString(declSource(d, pkg, p.Main()))
 		}
 	}
 	files["types.go"] = b.String()
@@ -496,11 +541,11 @@ func (p *DcProgram) Source(pkg string) map[string]string {
 	if p.PkgTag[pkg] {
 		doc = "// +k8s:deepcopy-gen=package\n\n"
 	}
-	files["doc.go"] = doc + "// Package " + pkg + " is generated.\npackage " + pkg + "\n"
+	files["doc.go"] = doc + "// Package " + clause + " is generated.\npackage " + clause + "\n"
 	return files
 }
 
-func declSource(d *DcDecl, cur string) string {
+func declSource(d *DcDecl, cur string, mainPath string) string {
 	var b strings.Builder
 	var tags []string
 	if d.Tag != "" {
@@ -509,7 +554,7 @@ func declSource(d *DcDecl, cur string) string {
 	if len(d.Ifaces) > 0 {
 		var q []string
 		for _, i := range d.Ifaces {
-			q = append(q, "example.com/m/p."+i)
+			q = append(q, mainPath+"."+i)
 		}
 		tags = append(tags, "// +k8s:deepcopy-gen:interfaces="+strings.Join(q, ","))
 	}
@@ -553,7 +598,7 @@ func declSource(d *DcDecl, cur string) string {
 // CheckerSource is the program compiled with the input and the generated code
 func (p *DcProgram) CheckerSource(generated []string, seed int64, rounds int) string {
 	var b strings.Builder
-	b.WriteString("package main\n\nimport (\n\t\"fmt\"\n\t\"math/rand\"\n\t\"reflect\"\n\t\"strings\"\n\n\t\"example.com/m/p\"\n")
+	b.WriteString("package main\n\nimport (\n\t\"fmt\"\n\t\"math/rand\"\n\t\"reflect\"\n\t\"strings\"\n\n\tp \"" + p.Main() + "\"\n")
 	if p.HasDep {
 		b.WriteString("\t\"example.com/m/dep\"\n")
 	}
@@ -938,6 +983,10 @@ func DeepCopyProperty(impl DcImpl) Property {
 		for i, l := range lines {
 			f := Fields(l)
 			switch f[1] {
+			case "reset":
+				if len(f) > 2 {
+					prog.MainPath = f[2]
+				}
 			case "pkgtag":
 				prog.PkgTag[f[2]] = f[3] == "1"
 				if f[2] == "dep" {
@@ -946,8 +995,8 @@ func DeepCopyProperty(impl DcImpl) Property {
 			case "decl":
 				prog.Decls = append(prog.Decls, dcDecodeDecl(f))
 			case "gen":
-				files := map[string]map[string]string{"example.com/m/p": prog.Source("p")}
-				pkgs := []string{"example.com/m/p"}
+				files := map[string]map[string]string{prog.Main(): prog.Source("p")}
+				pkgs := []string{prog.Main()}
 				if prog.HasDep {
 					files["example.com/m/dep"] = prog.Source("dep")
 					pkgs = append(pkgs, "example.com/m/dep")
@@ -957,7 +1006,7 @@ func DeepCopyProperty(impl DcImpl) Property {
 				root, gen, toolOut, err = impl.Generate(files, pkgs)
 				if err != nil {
 					outs[i] = "tool-fails"
-					fails = append(fails, Failure{"tool-fails", fmt.Sprintf("deepcopy-gen failed on an input of the accepted fragment: %v\n%s\n--- input\n%s", err, toolOut, files["example.com/m/p"]["types.go"])})
+					fails = append(fails, Failure{"tool-fails", fmt.Sprintf("deepcopy-gen failed on an input of the accepted fragment: %v\n%s\n--- input\n%s", err, toolOut, files[prog.Main()]["types.go"])})
 					return outs, fails
 				}
 				// which types got methods
@@ -1012,7 +1061,7 @@ func DeepCopyProperty(impl DcImpl) Property {
 					if strings.Contains(cerr, "invalid receiver type") {
 						sig = "does-not-compile:invalid-receiver"
 					}
-					fails = append(fails, Failure{sig, fmt.Sprintf("input and generated code do not compile together:\n%s\n--- input\n%s\n--- generated\n%s", firstLines(cerr, 8), prog.Source("p")["types.go"], gen["example.com/m/p"])})
+					fails = append(fails, Failure{sig, fmt.Sprintf("input and generated code do not compile together:\n%s\n--- input\n%s\n--- generated\n%s", firstLines(cerr, 8), prog.Source("p")["types.go"], gen[prog.Main()])})
 					continue
 				}
 				if err != nil {
@@ -1040,11 +1089,11 @@ func DeepCopyProperty(impl DcImpl) Property {
 		Exec: exec,
 		Gen: func(c *Ctx) {
 			r := c.RNG("programs")
-			n := c.Scale(48, 1500)
+			n := c.Scale(64, 1500)
 			var batch []PCase
 			for i := 0; i < n; i++ {
 				prog, feats := GenDcProgram(r, DcArraysOfReferences)
-				ls := []string{Line("dc", "reset")}
+				ls := []string{Line("dc", "reset", prog.Main())}
 				for _, pk := range []string{"dep", "p"} {
 					if pk == "dep" && !prog.HasDep {
 						continue
